@@ -24,7 +24,7 @@ CHECKS = {
         dict(prop="C01", harness="api_pbt", quick=dict(count=4000, workers=8), thorough=dict(count=120000, workers=16),
              essential=_ALL_SCHEMAS + ["mode=update", "cue-slot0", "cue-slot7", "loop-slot7", "label=255", "key=c_major", "sample_rate:absent",
                                        "grid:1-marker", "write-rejected", "write-accepted", "waveform:recommended-size", "sample_count>=2^63",
-                                       "bpm:fractional", "offset=-1", "waveform:opacity"])]),
+                                       "bpm:fractional", "offset=-1", "waveform:opacity", "after-removed-track"])]),
     "C06": dict(level="exploration", parts=[
         dict(prop="REG", harness="api_pbt", quick=dict(count=0, workers=1), thorough=dict(count=0, workers=1)),  # regression scenarios
         dict(prop="C06", harness="api_pbt", quick=dict(count=1600, workers=8), thorough=dict(count=60000, workers=16),
@@ -197,7 +197,7 @@ CHECKS = {
 }
 
 RULES = {
-    "C01": "Case = (schema out of the 18 supported, create or update over a second independently generated stored snapshot, one generated "
+    "C01": "Case = (schema out of the 18 supported, create or update over a second independently generated stored snapshot - one time in four after another track was written, read and removed in the same library - one generated "
            "track_snapshot: every optional field absent/present, strings incl. empty/quotes/UTF-8/300+ bytes, ints at the edges of int, ratings "
            "-100..255 and INT_MIN/MAX, durations and time points with sub-second parts incl. negative/pre-1970, sample counts up to 2^64-1, "
            "0..8 cue/loop slots populated at every position (9..12 and labels > 255 / empty as rejection classes), offsets -1/0/fractional/"
